@@ -30,7 +30,7 @@ LEVEL_TEXT = ("Exploration over inputs and short histories of ABC calls; the inv
               "against an independently recomputed cost, which exposes parameter-order and bookkeeping slips.")
 LEVEL_NOTE = "Runs are small (N <= 45); nothing is claimed about posterior quality."
 DESIGN_REF = "DESIGN.md section 3 (C17)"
-CASE_TIMEOUT = 60
+CASE_TIMEOUT = 240
 
 
 def strategy(tier):
@@ -96,6 +96,16 @@ def strategy(tier):
             sched = "quantile"                 # continue needs a tolerance below the previous final one: use the quantile form
         c["plots"] = draw(st.integers(0, 3)) == 0
         c["own_tol"] = draw(st.booleans())
+        if tier == "thorough" and not m.get("catalogue") and draw(st.integers(0, 24)) == 0:
+            # a needle: plain rejection ABC on one rate with a wide uniform prior and a tolerance only about one prior draw in
+            # 700 satisfies, so that single particle slots see long runs of rejections (thousands of trials are affordable
+            # in this tier only)
+            q0 = inferred[0] if inferred[0] in m["params"] else m["params"][0]
+            v0 = c["setup"]["theta"][m["params"].index(q0)]
+            c.update(loss="Square", noise=0.0, spread=None)
+            return dict(c, priors=[{"name": q0, "dist": "unif", "pars": [S.sig(0.4 * v0, 4), S.sig(2.5 * v0, 4)], "log": False}],
+                        constraint=None, N=20, G=1, sched="single", q=0.5, tol_factor=1.0, M=None, continues=0, plots=False,
+                        needle=True, np_seed=draw(st.integers(0, 2 ** 32 - 1)))
         return dict(c, priors=priors, constraint=constraint, N=draw(st.integers(20, 45)), G=G, sched=sched, q=draw(S.fl(0.3, 0.8, 2)),
                     tol_factor=draw(S.fl(0.5, 1.2, 2)), M=draw(st.sampled_from([None, None, "N-1", "half"])),
                     continues=steps, np_seed=draw(st.integers(0, 2 ** 32 - 1)))
@@ -169,7 +179,7 @@ def oracle(case, rec):
     else:
         abc = call(key + "/ABC", case, pgabc.ABC, obj, params)
     # count-based budget (not wall-clock): a healthy run needs a few cost evaluations per accepted particle
-    budget = {"n": 0, "max": 40 * case["N"] * case["G"] * (1 + case["continues"])}
+    budget = {"n": 0, "max": (6000 if case.get("needle") else 40) * case["N"] * case["G"] * (1 + case["continues"])}
     inner_cost = obj.cost
 
     def counted_cost(*a, **k):
@@ -201,6 +211,14 @@ def oracle(case, rec):
     c_star = min(_ref_cost_particle(case, y, star), min(costs))
     gap = max(float(np.quantile(costs, 0.6)) - c_star, 1e-6 * (1 + abs(c_star)))
     tol0 = c_star + gap * case["tol_factor"]
+    if case.get("needle"):
+        pr = case["priors"][0]
+        width = pr["pars"][1] - pr["pars"][0]
+        r_ = 0.0007 * width
+        tol0 = max(_ref_cost_particle(case, y, [star[0] + r_]), _ref_cost_particle(case, y, [star[0] - r_]))
+        if not (tol0 > 0):
+            raise Inconclusive("needle tolerance degenerate")
+        rec.label("needle:acceptance-about-1-in-700")
     N, G = case["N"], case["G"]
     M = None if case["M"] is None else (N - 1 if case["M"] == "N-1" else N // 2)
     if case["sched"] == "single":
